@@ -76,10 +76,7 @@ func judgeC16(rep *core.Report, fi *FuncInfo, recs []*execmon.Rec) {
 		}
 		rep.Eval(1)
 		if r.Panic != "" {
-			if r.PanicAt == "" {
-				report(&core.Violation{Property: "C16", Monitor: "exec", Symptom: panicClass(r.Panic), Features: map[string]string{"val": valClass(r.Val)}, Case: c.S.ID,
-					Detail: fmt.Sprintf("%s(%s) panicked: %s", r.Fn, r.Val, r.Panic)}, r)
-			}
+			rep.Count("panicking_calls_left_to_C02", 1)
 			continue
 		}
 		for _, a := range r.SliceAlias {
